@@ -75,6 +75,26 @@ def interpolate_fwd_contract(cfg: ivp.Cfg):
         Phi, m_pred, P_pred = ivp.predict_spec(cfg, left.mean_flat, cov(L, left), cond)
         cl += [eq("interpolated_mean_is_prediction_from_left_state", interpolated.u.mean_flat, m_pred),
                eq("interpolated_cov_is_prediction_from_left_state", cov(L, interpolated.u), P_pred)]
+        # the reported posterior: its marginal is the reported marginal; for smoothers its backward model leads back to
+        # the previous target (fixed-interval: the left state; fixed-point: merged with the left state's backward model)
+        fm_rep = ivp.filtering_marginal(interpolated)
+        cl += [eq("reported_posterior_marginal_mean", fm_rep.mean_flat, interpolated.u.mean_flat), eq("reported_posterior_marginal_chol", fm_rep.cholesky_flat, interpolated.u.cholesky_flat)]
+        if cfg.strategy != "filter":
+            _, back1 = cond.revert(left, solve_triu=LA.solve_triu)  # memoised contract call: RTS backward model t -> t0
+            G1, xi1, Xi1 = law(L, back1)
+            P_left = cov(L, left)
+            cl += [eq("rts_gain_equation_t_to_t0", L.mm(G1, P_pred), L.mm(P_left, L.T(Phi))),
+                   eq("rts_offset_t_to_t0", xi1, left.mean_flat - L.mv(G1, m_pred)),
+                   eq("rts_cov_t_to_t0", Xi1, P_left - L.mm(L.mm(G1, P_pred), L.T(G1)))]
+            Gr, xir, Xir = law(L, interpolated.solution_full.conditional)
+            if cfg.strategy == "fixedinterval":
+                cl += [eq("reported_backward_linop", Gr, G1), eq("reported_backward_offset", xir, xi1), eq("reported_backward_cov", Xir, Xi1)]
+                Gl, xil, Xil = law(L, ir.interp_from.solution_full.conditional)  # the new left reference is the reported posterior
+                cl += [eq("interp_from_backward_linop", Gl, G1), eq("interp_from_backward_offset", xil, xi1), eq("interp_from_backward_cov", Xil, Xi1)]
+            else:
+                A0, b0, Q0 = law(L, interp_from.solution_full.conditional)
+                cl += [eq("reported_backward_linop_merged", Gr, L.mm(A0, G1)), eq("reported_backward_offset_merged", xir, L.mv(A0, xi1) + b0),
+                       eq("reported_backward_cov_merged", Xir, L.mm(L.mm(A0, Xi1), L.T(A0)) + Q0)]
         # the left reference for later interpolations is the interpolated marginal ...
         fm_left = ivp.filtering_marginal(ir.interp_from)
         cl += [eq("interp_from_marginal_is_interpolated_mean", fm_left.mean_flat, m_pred), eq("interp_from_marginal_is_interpolated_cov", cov(L, fm_left), P_pred)]
@@ -131,6 +151,21 @@ def interpolate_at_t1_contract(cfg: ivp.Cfg):
         cl += _frame_fields("step_from_keeps_right_state", ir.step_from, interp_to)
         cl += _frame_fields("interp_from_keeps_left_bookkeeping", ir.interp_from, interp_from)
         cl += _same("reported_state_is_the_step_end", sol.u, ivp.filtering_marginal(interp_to))
+        cl += _same("reported_posterior_is_the_step_end's", sol.solution_full, interp_to.solution_full)
+        # the left reference for later interpolations: the step end itself (filter, fixed-interval smoother) ...
+        fm_prev = ivp.filtering_marginal(ir.interp_from)
+        cl += [eq("interp_from_marginal_mean_is_step_end", fm_prev.mean_flat, ivp.filtering_marginal(interp_to).mean_flat),
+               eq("interp_from_marginal_chol_is_step_end", fm_prev.cholesky_flat, ivp.filtering_marginal(interp_to).cholesky_flat)]
+        if cfg.strategy == "fixedinterval":
+            cl += _same("interp_from_posterior_is_the_step_end's", ir.interp_from.solution_full, interp_to.solution_full)
+            # the state to continue from sits exactly at t1: unit backward model (see fix da6e4a0)
+            A2, b2_, Q2_ = law(L, ir.step_from.solution_full.conditional)
+            eye2 = jnp.broadcast_to(jnp.eye(A2.shape[-1]), A2.shape)
+            cl += [eq("step_from_backward_model_reset_to_identity", A2, eye2), eq("step_from_backward_offset_reset", b2_, 0.0), eq("step_from_backward_noise_reset", Q2_, 0.0)]
+        if cfg.strategy == "fixedpoint":  # ... with a unit backward model for the fixed-point smoother
+            A1, b1, Q1 = law(L, ir.interp_from.solution_full.conditional)
+            eye1 = jnp.broadcast_to(jnp.eye(A1.shape[-1]), A1.shape)
+            cl += [eq("interp_from_backward_model_reset_to_identity", A1, eye1), eq("interp_from_backward_offset_reset", b1, 0.0), eq("interp_from_backward_noise_reset", Q1, 0.0)]
         # everything reported next to the marginal (output scale, cached linearisation, auxiliary state, prior) belongs to the step end
         cl += _same("reported_output_scale_is_the_step_end's", sol.output_scale, interp_to.output_scale)
         cl += _same("reported_auxiliary_is_the_step_end's", sol.auxiliary, interp_to.auxiliary)
